@@ -25,6 +25,10 @@ def run(ctx):
     simrules.replay_isolation_rule(ctx, 'C02.c')
     simrules.measure_chain_rule(ctx, 'C02.e')
     simrules.product_sample_order_rule(ctx, 'C02.g')
+    simrules.confusion_before_inversion_rule(ctx, 'C02.h')
+    simrules.nested_copy_rule(ctx, 'C02.b2')
+    ctx.decided.append('C02.b2 the classical measurement store copies its per-key record lists, not just the dictionaries')
+    ctx.decided.append('C02.h the fast path and the per-repetition path apply confusion map and invert mask in the same (documented) order')
     mg = repo.cls('cirq.ops.measurement_gate.MeasurementGate')
     pm = repo.cls('cirq.ops.pauli_measurement_gate.PauliMeasurementGate')
     cond = repo.cls('cirq.value.condition.Condition')
